@@ -217,6 +217,14 @@ def texts(tier, seed):
         out.add(f"not x + 1 {o} y * 2")
         out.add(f"not (x {o} y {o} 2)")
     # right-associativity and unary/power interplay
+    # negative literals of every numeric kind as operands of every operator, both positions (a negative constant is not atomic when printed)
+    for lit_ in ["(-2)", "(-2.5)", "(-0.5)", "-2.5", "-3"]:
+        for o in ARITH_OPS:
+            for v in ["x", "y", "2", "x + 1"]:
+                out.add(f"{lit_} {o} {v}")
+                out.add(f"{v} {o} {lit_}")
+                out.add(f"y * {lit_} {o} {v}")
+                out.add(f"{v} {o} {lit_} + x")
     for a, b, c in itertools.product(["x", "y", "2", "-x", "(-2)"], repeat=3):
         out.add(f"{a} ** {b} ** {c}")
         out.add(f"({a} ** {b}) ** {c}")
